@@ -142,6 +142,25 @@ class Fn(Val):
         self.fi = fi
 
 
+class ObjVal(Val):
+    """extension point: a value of another abstract domain carried through lists and loops (must implement subs / show)"""
+
+    def subs(self, name, val):
+        return self
+
+    def show(self):
+        return type(self).__name__
+
+    def key(self):
+        return (type(self).__name__, repr(self))
+
+    def __eq__(self, other):
+        return isinstance(other, ObjVal) and self.key() == other.key()
+
+    def __hash__(self):
+        return hash(self.key())
+
+
 def cat(*parts):
     out = []
     for p in parts:
@@ -238,6 +257,8 @@ def tsubs(t, name, val):
         return ("fmt", tuple(x if isinstance(x, str) else psubs(x, name, val) for x in t[1]))
     if k in ("ex", "prev", "opq"):
         return t
+    if k == "obj":
+        return ("obj", t[1].subs(name, val))
     if k == "blk":
         return ("blk", tsubs(t[1], name, val))
     if k == "dct":
@@ -308,7 +329,7 @@ def opaque(t):
 def tmap(t, f):
     """apply f to every element leaf"""
     k = t[0]
-    if k in ("row", "int", "fmt", "ex", "blk", "dct"):
+    if k in ("row", "int", "fmt", "ex", "blk", "dct", "obj"):
         return f(t)
     if k == "cat":
         return ("cat", tuple(tmap(x, f) for x in t[1]))
@@ -503,6 +524,8 @@ def show(t):
         return "'" + "".join(x if isinstance(x, str) else "{" + repr(x) + "}" for x in t[1]) + "'"
     if k == "ex":
         return f"<{t[1]}>"
+    if k == "obj":
+        return t[1].show()
     if k == "blk":
         return f"[{show(t[1])}]"
     if k == "dct":
@@ -679,6 +702,8 @@ class Interp:
         return E(node)
 
     def elem_val(self, leaf):
+        if leaf[0] == "obj":
+            return leaf[1]
         if leaf[0] == "blk":
             return Sq(leaf[1])
         if leaf[0] == "int":
@@ -708,6 +733,10 @@ class Interp:
                 return RefL(("ref", container.lo + idx))
             return None
         fn = astq.callee_name(self.prog, self.fi, it) if isinstance(it, ast.Call) else None
+        if fn == "tqdm.tqdm" and it.args:
+            return self.iter_domain(it.args[0], env, target)       # progress bar around the iterable
+        if fn == "tqdm.trange":
+            fn = "range"
         if fn == "range":
             a = [self.ev(x, env) for x in it.args]
             ps = [self.topoly(x) for x in a]
@@ -783,6 +812,10 @@ class Interp:
         if isinstance(val, Vec) and val.axis == 0:
             return ("idx", P.c(0), P.s(f"n[{val.s!r}]"), lambda i, val=val: Sq(("row", val.s, i)) if val.ndim == 1 else Sq(("row", val.s, i)))
         if isinstance(val, Sq):
+            tn = normalise(val.t)
+            if tn[0] == "for" and tn[4][0] in ("row", "int", "fmt", "ex", "blk", "dct", "obj"):
+                leaf_, v_ = tn[4], tn[1]
+                return ("idx", tn[2], tn[3], lambda i, leaf_=leaf_, v_=v_: self.elem_val(tsubs(leaf_, v_, i)))
             return ("term", val.t)
         return None
 
@@ -801,19 +834,20 @@ class Interp:
             t = d[1]
             tn = normalise(t)
             # iterate over a literal list concretely
-            if tn[0] in ("row", "int", "fmt", "ex", "blk", "dct") or (tn[0] == "cat" and all(x[0] in ("row", "int", "fmt", "ex", "blk", "dct") for x in tn[1])):
+            if tn[0] in ("row", "int", "fmt", "ex", "blk", "dct", "obj") or (tn[0] == "cat" and all(x[0] in ("row", "int", "fmt", "ex", "blk", "dct", "obj") for x in tn[1])):
                 items = [tn] if tn[0] != "cat" else list(tn[1])
                 for leaf in items:
                     self.assign(d[4], self.elem_val(leaf), env, s)
                     self.block(s.body, env)
                 return
-            # iterate over a symbolic sequence of integers:  for x in <for v in lo..hi: int e>: body   -> reuse the loop
-            if tn[0] == "for" and tn[4][0] == "int":
-                kind, v, lo, hi = "for", tn[1], tn[2], tn[3]
+            # iterate over a symbolic sequence:  for x in <for v in lo..hi: leaf(v)>: body   -> one symbolic iteration with a fresh index
+            if tn[0] == "for" and tn[4][0] in ("row", "int", "fmt", "ex", "blk", "dct", "obj"):
+                v2 = self.fresh("v")
                 binds = {}
-                if isinstance(d[4], ast.Name):
-                    binds[d[4].id] = I(tn[4][1])
-                d = (kind, v, lo, hi, binds)
+                self_assign_env = {}
+                self.assign(d[4], self.elem_val(tsubs(tn[4], tn[1], P.s(v2))), self_assign_env, s)
+                binds.update(self_assign_env)
+                d = ("for", v2, tn[2], tn[3], binds)
             elif tn[0] == "forin" and tn[3][0] == "int":
                 binds = {}
                 if isinstance(d[4], ast.Name):
@@ -951,6 +985,16 @@ class Interp:
                 ty = self.types[it.id]
                 names = [astq.src(x).split(".")[-1] for x in (g.elt.args[1].elts if isinstance(g.elt.args[1], ast.Tuple) else [g.elt.args[1]])]
                 return len(ty) > 1 and ty[1] in names
+        if isinstance(test, ast.Compare) and len(test.ops) == 1 and isinstance(test.ops[0], (ast.Eq, ast.NotEq, ast.In, ast.NotIn)):
+            l = self.ev(test.left, env)
+            r = test.comparators[0]
+            if isinstance(l, K) and not isinstance(l.v, bool):
+                if isinstance(test.ops[0], (ast.Eq, ast.NotEq)):
+                    rv = self.ev(r, env)
+                    if isinstance(rv, K):
+                        return (l.v == rv.v) == isinstance(test.ops[0], ast.Eq)
+                elif isinstance(r, (ast.Tuple, ast.List, ast.Set)) and all(isinstance(x, ast.Constant) for x in r.elts):
+                    return (l.v in [x.value for x in r.elts]) == isinstance(test.ops[0], ast.In)
         if isinstance(test, ast.Compare) and len(test.ops) == 1 and isinstance(test.ops[0], (ast.Is, ast.IsNot)) and isinstance(test.comparators[0], ast.Constant) and test.comparators[0].value is None:
             v = self.ev(test.left, env)
             if isinstance(v, (DataList, RefLists, Vec, RefL, Sq, I)):
@@ -1003,6 +1047,8 @@ class Interp:
 
     def leaf(self, v):
         """value -> single element of a list"""
+        if isinstance(v, ObjVal):
+            return ("obj", v)
         if isinstance(v, I):
             return ("int", v.p)
         if isinstance(v, K):
@@ -1144,6 +1190,9 @@ class Interp:
         return E(e)
 
     def binop(self, op, a, b, node):
+        r = self.binop_hook(op, a, b, node)
+        if r is not None:
+            return r
         if isinstance(a, I) and isinstance(b, I) and isinstance(op, (ast.Add, ast.Sub, ast.Mult)):
             return I(a.p + b.p if isinstance(op, ast.Add) else a.p - b.p if isinstance(op, ast.Sub) else a.p * b.p)
         if isinstance(op, ast.Add) and isinstance(a, Sq) and isinstance(b, Sq) and self.listlike(a) and self.listlike(b):
@@ -1174,6 +1223,9 @@ class Interp:
 
     def attr(self, e, env):
         base = self.ev(e.value, env)
+        r = self.attr_hook(base, e.attr, e)
+        if r is not None:
+            return r
         if e.attr == "shape" and isinstance(base, Vec):
             return Tup([I(P.s(f"n[{base.s!r}]")) if ax == base.axis else I(P.s(f"m{ax}[{base.s!r}]")) for ax in range(base.ndim)])
         if e.attr == "T" and isinstance(base, Vec) and base.ndim == 2:
@@ -1189,6 +1241,9 @@ class Interp:
     def subscript(self, e, env):
         base = self.ev(e.value, env)
         idx = self.ev_index(e.slice, env)
+        r = self.index_hook(base, idx, e)
+        if r is not None:
+            return r
         if isinstance(base, Tup) and len(idx) == 1:
             p = self.topoly(idx[0]) if isinstance(idx[0], Val) else None
             if p is not None and p.is_const() and -len(base.items) <= int(p.const()) < len(base.items):
@@ -1225,6 +1280,18 @@ class Interp:
         if isinstance(base, E):
             return E(ast.Subscript(value=base.node, slice=e.slice if not any(isinstance(x, Val) and not isinstance(x, (E, I, K)) for x in idx) else ast.Name(id="_idx", ctx=ast.Load()), ctx=ast.Load()))
         return E(e)
+
+    def index_hook(self, base, idx, node):
+        return None
+
+    def call_hook(self, fn, args, kw, node, env):
+        return None
+
+    def attr_hook(self, base, name, node):
+        return None
+
+    def binop_hook(self, op, a, b, node):
+        return None
 
     def vec_index(self, base, idx):
         """subscript of a per-setup container"""
@@ -1291,9 +1358,15 @@ class Interp:
 
     def seq_index(self, base, idx):
         t = normalise(base.t)
+        if len(idx) == 1 and isinstance(idx[0], (I, K, E)) and t[0] == "for" and t[2] == P.c(0) and t[4][0] in ("row", "int", "fmt", "ex", "blk", "dct", "obj"):
+            p = self.topoly(idx[0])
+            if p is not None:
+                if p.is_const() and p.const() < 0:
+                    p = t[3] + p
+                return self.elem_val(tsubs(t[4], t[1], p))
         if len(idx) >= 1 and isinstance(idx[0], (I, K)):
             p = self.topoly(idx[0])
-            if t[0] == "cat" and p is not None and p.is_const() and all(x[0] in ("row", "int", "fmt", "ex", "blk", "dct") for x in t[1]) and -len(t[1]) <= int(p.const()) < len(t[1]):
+            if t[0] == "cat" and p is not None and p.is_const() and all(x[0] in ("row", "int", "fmt", "ex", "blk", "dct", "obj") for x in t[1]) and -len(t[1]) <= int(p.const()) < len(t[1]):
                 r = self.elem_val(t[1][int(p.const())])
                 if len(idx) > 1 and isinstance(r, Sq):
                     return r
@@ -1320,11 +1393,14 @@ class Interp:
         env2 = dict(env)
         if d[0] == "term":
             tn = normalise(d[1])
-            if tn[0] == "for" and tn[4][0] == "int" and isinstance(d[4], ast.Name):
-                d = ("for", tn[1], tn[2], tn[3], {d[4].id: I(tn[4][1])})
+            if tn[0] == "for" and tn[4][0] in ("row", "int", "fmt", "ex", "blk", "dct", "obj"):
+                v2 = self.fresh("v")
+                tmp_env = {}
+                self.assign(d[4], self.elem_val(tsubs(tn[4], tn[1], P.s(v2))), tmp_env, e)
+                d = ("for", v2, tn[2], tn[3], tmp_env)
             elif tn[0] == "forin" and tn[3][0] == "int" and isinstance(d[4], ast.Name):
                 d = ("forin", tn[1], tn[2], None, {d[4].id: I(tn[3][1])})
-            elif tn[0] in ("row", "int", "fmt", "ex", "blk", "dct") or (tn[0] == "cat" and all(x[0] in ("row", "int", "fmt", "ex", "blk", "dct") for x in tn[1])):
+            elif tn[0] in ("row", "int", "fmt", "ex", "blk", "dct", "obj") or (tn[0] == "cat" and all(x[0] in ("row", "int", "fmt", "ex", "blk", "dct", "obj") for x in tn[1])):
                 items = [tn] if tn[0] != "cat" else list(tn[1])
                 out = []
                 for leaf in items:
@@ -1360,6 +1436,9 @@ class Interp:
             return K(t) if t is not None else E(e)
         args = [self.ev(a, env) for a in e.args]
         kw = {k.arg: self.ev(k.value, env) for k in e.keywords if k.arg}
+        r = self.call_hook(fn, args, kw, e, env)
+        if r is not None:
+            return r
         # list methods
         if isinstance(e.func, ast.Attribute) and isinstance(e.func.value, ast.Name) and isinstance(env.get(e.func.value.id), Sq):
             n = e.func.value.id
@@ -1414,7 +1493,7 @@ class Interp:
                 return I(P.s(f"r[{a.dom[1]!r}]"))
             if isinstance(a, Sq):
                 t = normalise(a.t)
-                if t[0] == "cat" and all(x[0] in ("row", "int", "fmt", "ex", "blk", "dct") for x in t[1]):
+                if t[0] == "cat" and all(x[0] in ("row", "int", "fmt", "ex", "blk", "dct", "obj") for x in t[1]):
                     return I(P.c(len(t[1])))
                 if t[0] == "forin" and t[2][0] == "ref" and t[3][0] in ("row", "int"):
                     return I(P.s(f"r[{t[2][1]!r}]"))
@@ -1527,8 +1606,8 @@ class Interp:
                 if isinstance(a, ast.AST):
                     bound[p] = self.ev(a, env)
             self.calls.append((r.qual, bound, e, list(self.loops)))
-            if ok and any(isinstance(v, (Sq, Vec, RefL, DataList, RefLists, Tup)) for v in bound.values()):
-                sub = Interp(self.prog, roles={}, types={}, depth=self.depth + 1, shared=self.sh)
+            if ok and any(not isinstance(v, (E, I, K, Fn)) for v in bound.values()):
+                sub = type(self)(self.prog, roles={}, types={}, depth=self.depth + 1, shared=self.sh)
                 sub.loops = list(self.loops)
                 try:
                     rets = sub.run(r, bound)
@@ -1580,6 +1659,8 @@ def _same_val(a, b):
         return a.dom == b.dom
     if isinstance(a, Tup):
         return len(a.items) == len(b.items) and all(_same_val(x, y) for x, y in zip(a.items, b.items))
+    if isinstance(a, ObjVal):
+        return a == b
     return a is b
 
 
